@@ -33,6 +33,12 @@ type binding struct {
 type Environment struct {
 	vars   map[string]binding
 	parent *Environment
+	// depth counts the nested expression evaluations of the activation this
+	// environment belongs to (one request, command, task, ...). Every direct
+	// child of a root environment starts a counter of its own and the scopes
+	// created below it share it, so the recursion limit applies to each
+	// activation separately instead of to all goroutines together.
+	depth *int64
 }
 
 // NewEnvironment creates a new environment
@@ -45,9 +51,17 @@ func NewEnvironment() *Environment {
 
 // NewChildEnvironment creates a child environment with a parent scope
 func NewChildEnvironment(parent *Environment) *Environment {
+	var depth *int64
+	if parent != nil {
+		depth = parent.depth
+		if depth == nil && parent.parent == nil {
+			depth = new(int64)
+		}
+	}
 	return &Environment{
 		vars:   make(map[string]binding),
 		parent: parent,
+		depth:  depth,
 	}
 }
 
